@@ -18,7 +18,7 @@ LABELS = ["S", "L", "E"]
 
 KINDS = ["all_declared", "leaf_gap_desc", "post_to_parent", "undecl_acct", "undecl_comm_posting",
          "undecl_comm_closing", "undecl_comm_opening", "undecl_tag", "report_comm", "price_comm", "dup_decl",
-         "empty_comm", "invalid_chart", "equity", "closing_only_comm"]
+         "empty_comm", "invalid_chart", "equity", "closing_only_comm", "odd_tag"]
 
 INVALID_ACCOUNTS = ["a b", "", ":a", "a::b", "a:", " a", "a:-b", "a:b c", "a:_x"]
 INVALID_COMMS = ["1EUR", "", "E UR", "E:UR", "-EUR", "_EUR"]
@@ -89,6 +89,7 @@ def price_text(entries):
 
 class C12(PropBase):
     id = "C12"
+    needs_cli = True     # the borrowed command-line cases (C19's) run the real binary
 
     # ---- generation
     def gen(self, rng, tier, focus=None):
@@ -100,6 +101,23 @@ class C12(PropBase):
                 out.append(self.gen_case(rng, kind))
         for _ in range(n_random):
             out.append(self.gen_case(rng, "random"))
+        # the strict switch as the user gives it: in the file, on the command line (`--strict.mode true|false`), or both with
+        # different values - the effective mode is the command line's.  These runs of the real binary on a journal with
+        # declared and undeclared names are C19's cases (strict key in every file / option combination), borrowed here
+        if not focus:
+            import c19
+            w = c19.world()
+            for fs in (False, True):
+                for cs in (None, False, True):
+                    for _ in range(2 if tier == "quick" else 12):
+                        f = c19.rand_file(rng, w)
+                        f["strict"] = fs
+                        c = c19.rand_cli(rng, w, f, 0.15, shape="nothing")
+                        c.pop("strict.mode", None)
+                        if cs is not None:
+                            c["strict.mode"] = cs
+                        out.append(dict(c19.PROP.mk("strict-switch", f, c, "console"), delegate="c19",
+                                        kind="cli:strict-switch:%s/%s" % (fs, cs)))
         return out
 
     def gen_txns(self, rng, pool, comms, tag_pool, opts=None):
@@ -148,7 +166,15 @@ class C12(PropBase):
         def post(acct, amt, u=unit):
             return {"acct": acct, "amount": amt, "unit": u, "comment": None}
 
-        if kind == "all_declared":
+        if kind == "odd_tag":
+            # tags are multi-part names whose sub-parts may begin with any name character ('_', '-', a digit, the middle
+            # dot) - unlike account sub-names; a chart that declares such a tag is a valid chart, and a journal using it
+            # is accepted in strict mode
+            tg = rng.choice(["trip:_private", "x:-y", "m:\u00b7n", "t:1st", "a:_", "q:-", "w:9:_"])
+            txns.append(simple_txn([post(pool[0], "1")], {"acct": pool[-1], "comment": None},
+                                   tags=[tg] + ([tag_pool[0]] if rng.random() < 0.5 else [])))
+            accts, cs, tgs = declare_all()
+        elif kind == "all_declared":
             # supersets, shuffled, with unrelated extras
             accts = accts + [common.gen_account(rng) for _ in range(rng.randrange(0, 3))]
             cs = cs + rng.sample(EXTRA_COMMS, rng.randrange(0, 2))
